@@ -288,6 +288,9 @@ func (t *Typechecker) VisitStringLit(expr *ast.StringLit) ast.VisitResult {
 func (t *Typechecker) VisitListLit(expr *ast.ListLit) ast.VisitResult {
 	if expr.Values != nil {
 		elementType := t.Evaluate(expr.Values[0])
+		if ddptypes.IsVoid(elementType) {
+			t.errExpr(ddperror.TYP_BAD_LIST_LITERAL, expr.Values[0], "Die Elemente einer Liste müssen einen Typ haben")
+		}
 		if ddptypes.IsList(elementType) {
 			t.errExpr(ddperror.TYP_BAD_LIST_LITERAL, expr.Values[0], "Die Elemente einer Liste können keine Listen sein (%s)", elementType)
 		}
@@ -303,6 +306,9 @@ func (t *Typechecker) VisitListLit(expr *ast.ListLit) ast.VisitResult {
 		}
 
 		elementType := t.Evaluate(expr.Value)
+		if ddptypes.IsVoid(elementType) {
+			t.errExpr(ddperror.TYP_BAD_LIST_LITERAL, expr.Value, "Die Elemente einer Liste müssen einen Typ haben")
+		}
 		if ddptypes.IsList(elementType) {
 			t.errExpr(ddperror.TYP_BAD_LIST_LITERAL, expr.Value, "Die Elemente einer Liste können keine Listen sein (%s)", elementType)
 		}
@@ -379,7 +385,8 @@ func (t *Typechecker) VisitBinaryExpr(expr *ast.BinaryExpr) ast.VisitResult {
 			validate(ddptypes.TEXT, ddptypes.BUCHSTABE)
 			t.latestReturnedType = ddptypes.TEXT
 		} else { // lists
-			if !ddptypes.Equal(ddptypes.GetListElementType(lhs), ddptypes.GetListElementType(rhs)) {
+			// operands without a type (e.g. calls of functions that return nothing) cannot be elements of a list
+			if ddptypes.IsVoid(lhs) || ddptypes.IsVoid(rhs) || !ddptypes.Equal(ddptypes.GetListElementType(lhs), ddptypes.GetListElementType(rhs)) {
 				t.errExpr(ddperror.TYP_TYPE_MISMATCH, expr, "Die Typenkombination aus %s und %s passt nicht zum VERKETTET Operator", lhs, rhs)
 			}
 			t.latestReturnedType = ddptypes.ListType{ElementType: ddptypes.GetListElementType(lhs)}
